@@ -1220,6 +1220,33 @@ static void cmd_keys(char **tok, int ntok)
     emit_end(&g_out);
 }
 
+
+static int parse_ntype(const char *v, int dflt)
+{
+    if (!v) return dflt;
+    if (!strcmp(v, "cn")) return NAME_TYPE_CN;
+    if (!strcmp(v, "dns")) return NAME_TYPE_SAN_DNS;
+    if (!strcmp(v, "email")) return NAME_TYPE_SAN_EMAIL;
+    if (!strcmp(v, "ip")) return NAME_TYPE_SAN_IP_ADDRESS;
+    if (!strcmp(v, "any")) return NAME_TYPE_ANY;
+    if (!strcmp(v, "host")) return NAME_TYPE_HOSTNAME;
+    return dflt;
+}
+
+/* %00 / %xx escapes allow NUL and control characters in an expected name */
+static char *unescape_name(const char *nm, char *nmbuf, int cap)
+{
+    int i = 0, o = 0;
+    if (!nm) return NULL;
+    while (nm[i] && o < cap - 1)
+    {
+        if (nm[i] == '%' && hexval(nm[i + 1]) >= 0 && hexval(nm[i + 2]) >= 0) { nmbuf[o++] = (char) (hexval(nm[i + 1]) * 16 + hexval(nm[i + 2])); i += 3; }
+        else nmbuf[o++] = nm[i++];
+    }
+    nmbuf[o] = 0;
+    return nmbuf;
+}
+
 static void cmd_new(char **tok, int ntok)
 {
     /* new <ep> client|server keys=<K> [ver=T12,T13] [suites=hex,hex] [sid=<name>] [cb=none|strict|perm]
@@ -1344,8 +1371,15 @@ static void cmd_new(char **tok, int ntok)
             }
             sid = found >= 0 ? g_sids[found].sid : NULL;
         }
-        rc = matrixSslNewClientSession(&e->ssl, ks->keys, sid, ns ? suites : NULL, ns, cb,
-                opt_get(tok, ntok, "name"), NULL, NULL, &opts);
+        {
+            /* expected peer name and how the application wants it matched (matrixValidateCertsOptions_t) */
+            char nmbuf[512];
+            if (opt_get(tok, ntok, "ntype")) opts.validateCertsOpts.nameType = parse_ntype(opt_get(tok, ntok, "ntype"), NAME_TYPE_HOSTNAME);
+            if (opt_get(tok, ntok, "mflags")) opts.validateCertsOpts.mFlags = (uint32_t) opt_int(tok, ntok, "mflags", 0);
+            if (opt_get(tok, ntok, "vflags")) opts.validateCertsOpts.flags = (uint64_t) opt_int(tok, ntok, "vflags", 0);
+            rc = matrixSslNewClientSession(&e->ssl, ks->keys, sid, ns ? suites : NULL, ns, cb,
+                    unescape_name(opt_get(tok, ntok, "name"), nmbuf, sizeof(nmbuf)), NULL, NULL, &opts);
+        }
     }
     if (rc >= 0 && (v = opt_get(tok, ntok, "nosuites")))
     {
@@ -2045,30 +2079,14 @@ static void cmd_validate(char **tok, int ntok)
         for (k = 0; k < n && k < 16; k++) { caok[k] = parse_cert_file(parts[k], &cas) >= 0; if (!caok[k]) caskip++; }
         ncaf = n < 16 ? n : 16;
     }
-    v = opt_get(tok, ntok, "ntype");
-    vo.nameType = NAME_TYPE_HOSTNAME;
-    if (v && !strcmp(v, "cn")) vo.nameType = NAME_TYPE_CN;
-    else if (v && !strcmp(v, "dns")) vo.nameType = NAME_TYPE_SAN_DNS;
-    else if (v && !strcmp(v, "email")) vo.nameType = NAME_TYPE_SAN_EMAIL;
-    else if (v && !strcmp(v, "ip")) vo.nameType = NAME_TYPE_SAN_IP_ADDRESS;
-    else if (v && !strcmp(v, "any")) vo.nameType = NAME_TYPE_ANY;
+    vo.nameType = parse_ntype(opt_get(tok, ntok, "ntype"), NAME_TYPE_HOSTNAME);
+    vo.mFlags = (uint32_t) opt_int(tok, ntok, "mflags", 0);
+    vo.flags = (uint64_t) opt_int(tok, ntok, "vflags", 0);
     vo.max_verify_depth = opt_int(tok, ntok, "depth", 0);
     if (prc >= 0 && chain)
     {
-        char *nm = (char *) opt_get(tok, ntok, "name");
         char nmbuf[512];
-        if (nm)
-        {
-            /* %00 / %xx escapes allow NUL and control characters in the expected name */
-            int i = 0, o = 0;
-            while (nm[i] && o < 500)
-            {
-                if (nm[i] == '%' && hexval(nm[i + 1]) >= 0 && hexval(nm[i + 2]) >= 0) { nmbuf[o++] = (char) (hexval(nm[i + 1]) * 16 + hexval(nm[i + 2])); i += 3; }
-                else nmbuf[o++] = nm[i++];
-            }
-            nmbuf[o] = 0;
-            nm = nmbuf;
-        }
+        char *nm = unescape_name(opt_get(tok, ntok, "name"), nmbuf, sizeof(nmbuf));
         rc = matrixValidateCertsExt(NULL, chain, cas, nm, &found, NULL, NULL, &vo);
     }
     emit_begin(&g_out, "validate", NULL);
